@@ -116,6 +116,10 @@ pub trait Check: Sync {
     fn directed(&self) -> Vec<Self::Case> {
         vec![]
     }
+    /// maximal number of re-executions spent on shrinking one failure
+    fn shrink_steps(&self) -> usize {
+        1500
+    }
 }
 
 #[derive(Clone, Debug, Default)]
@@ -337,7 +341,8 @@ impl<C: Check> Campaign<C> {
                     let mut best = (case.clone(), f.clone());
                     if let Some(tree) = tree.as_mut() {
                         let mut steps = 0;
-                        'outer: while steps < 1500 && tree.simplify() {
+                        let max_steps = self.0.shrink_steps();
+                        'outer: while steps < max_steps && tree.simplify() {
                             loop {
                                 steps += 1;
                                 let c = tree.current();
@@ -354,7 +359,7 @@ impl<C: Check> Campaign<C> {
                                         break;
                                     }
                                     None => {
-                                        if steps >= 1500 || !tree.complicate() {
+                                        if steps >= max_steps || !tree.complicate() {
                                             break 'outer;
                                         }
                                     }
